@@ -187,6 +187,17 @@ class Tracker:
                                                    for (kind, params, pl) in sent) \
                     and len(sent) <= self.case["cfg"]["max_inflight"] and recv.get(k0, {}).get("closed") and not recv[k0]["frames"]:
                 self.viol.append(("C12", f"conn {k0} sent {[kind for kind, _, _ in sent]} and was closed without any reply or ERROR frame", t))
+            # ---- C17: a client's direct message reaches the modulator with the SENDER's username and the exact payload,
+            #      whatever the client wrote into from=
+            if any(kind == "MOD_DIRECT" for (kind, params, pl) in sent) and users_before.get(k0) is not None:
+                me_name = users_before[k0].split(b"@")[0]
+                directs = [(params, pl) for (kind, params, pl) in sent if kind == "MOD_DIRECT"]
+                calls = [m for m in o.get("mod", []) if m.get("call") == "spp"]
+                for m in calls:
+                    if bytes.fromhex(m["from"]) != me_name:
+                        self.viol.append(("C17", f"MOD_DIRECT sent on {me_name.decode('latin1')}'s connection reached the modulator as coming from {bytes.fromhex(m['from'])!r}", t))
+                    if len(directs) == 1 and directs[0][1] is not None and bytes.fromhex(m["payload"]) != directs[0][1]:
+                        self.viol.append(("C17", f"MOD_DIRECT payload reached the modulator altered ({len(bytes.fromhex(m['payload']))} bytes for {len(directs[0][1])})", t))
             # ---- effects acknowledged in this op
             for (kind, params, pl) in sent:
                 if "id" not in params:
@@ -641,6 +652,14 @@ def acl_check(case, obs):
                     viol.append(("C03", f"{me} published to {ch} although the reported publish list does not permit it", t))
                 if errs[:1] == [b"NOT_ALLOWED"] and allowed(reported[(ch, b"publish")], me):
                     viol.append(("C03", f"{me} refused (NOT_ALLOWED) although the reported publish list permits it", t))
+            if kind == "BROADCAST" and (ch, b"read") in reported and "BROADCAST_ACK" in names and op.get("members_live"):
+                # the converse, for histories that state who the live members are: whoever the reported read list permits
+                # receives the acknowledged broadcast
+                for k in op["members_live"]:
+                    if k != k0 and k in user and allowed(reported[(ch, b"read")], user[k]):
+                        got = [f for f in recv.get(k, {"frames": []})["frames"] if "undecodable" not in f and fname(f) == "MESSAGE" and fget(f, "channel") == ch]
+                        if not got:
+                            viol.append(("C03", f"{user[k]} is a member of {ch} and the reported read list {reported[(ch, b'read')]} permits it, but the acknowledged broadcast did not reach it", t))
             if kind == "BROADCAST" and (ch, b"read") in reported and "BROADCAST_ACK" in names:
                 for k, v in recv.items():
                     for f in v["frames"]:
